@@ -93,6 +93,15 @@ def step (_ : Unit) (line : String) : Unit × String :=
           | none => "bad-op"
         | none => "bad-op"
       | _, _ => "bad-op"
+    -- append contract: the model's encoders are pure functions of the value, `EncodeX(b, v)` of the Go code is
+    -- specified as `b ++ encode v` (the round-trip theorems of Props/C19 carry an arbitrary suffix, so fields appended one
+    -- after the other decode one after the other); the oracle is evaluated on the implementation only
+    | ["apd", kind, v, pfx, dirty, spare] =>
+      match parseVal kind v, parseHex pfx, dirty.toNat?, spare.toNat? with
+      | some x, some _, some d, some sp => match enc kind x with
+        | some _ => if d < 256 ∧ sp ≤ 4096 then "ok" else "bad-op"
+        | none => "bad-op"
+      | _, _, _, _ => "bad-op"
     | ["ord", kind, v1, v2] =>
       match parseVal kind v1, parseVal kind v2 with
       | some x, some y => match enc kind x, enc kind y with
